@@ -262,6 +262,7 @@ fn sink_thread(mut tx: TxH, values: u32, drop_at_end: bool, pidx: u32, sh: &Shar
                         ParkExit::Shutdown => break 'outer,
                         ParkExit::Probe => {
                             // probe poll: same message again
+                            hist::mark(tx.h, 0, hist::Op::Probe);
                             let b2 = tx.note.count.load(SeqCst);
                             let r = tx.start_send(id);
                             let _ = b2;
@@ -361,7 +362,7 @@ fn stream_thread(mut rx: RxH, mode: StreamMode, sh: &Shared, tid: usize, cfg: &F
                 match park(sh, tid, &rx.note.clone(), before) {
                     ParkExit::Notified => break,
                     ParkExit::Shutdown => break 'outer,
-                    ParkExit::Probe => match rx.recv_kind(RecvKind::Poll) {
+                    ParkExit::Probe => match { hist::mark(rx.h, rx.stream, hist::Op::Probe); rx.recv_kind(RecvKind::Poll) } {
                         RecvOut::NotReady => {
                             probe_answer(sh, tid, false, "NotReady", "stream", cfg, n);
                             continue;
@@ -455,12 +456,15 @@ pub fn run_once(cfg: &FutCfg, shard: &mut Shard) -> (u64, bool, bool) {
     let mut joins = Vec::new();
     let mut tid = 1usize;
     let cfg_arc = Arc::new(cfg.clone());
+    // the supervisor reads every task's notification counter directly (index = thread id)
+    let mut notes: Vec<Option<Arc<api::TaskNote>>> = (0..MAXT).map(|_| None).collect();
     for (pi, tx) in txs.drain(..).enumerate() {
         let sh = shared.clone();
         let c = cfg_arc.clone();
         let seed = rng.next();
         let (values, drop_end) = cfg.sinks[pi];
         let my = tid;
+        notes[my] = Some(tx.note.clone());
         shared.state[my].store(RUNNING, SeqCst);
         shared.is_task[my].store(true, SeqCst);
         joins.push(
@@ -486,6 +490,7 @@ pub fn run_once(cfg: &FutCfg, shard: &mut Shard) -> (u64, bool, bool) {
         let c = cfg_arc.clone();
         let seed = rng.next();
         let my = tid;
+        notes[my] = Some(rx.note.clone());
         shared.state[my].store(RUNNING, SeqCst);
         shared.is_task[my].store(!matches!(mode, StreamMode::Direct | StreamMode::DirectDrop(_)), SeqCst);
         joins.push(
@@ -526,9 +531,15 @@ pub fn run_once(cfg: &FutCfg, shard: &mut Shard) -> (u64, bool, bool) {
         } else {
             std::thread::sleep(Duration::from_micros(100));
         }
+        // (state, count the parked task waits to see change, the counter itself read directly)
         let snap = |sh: &Shared| -> Vec<(u32, u32, u32)> {
             (1..=nthreads)
-                .map(|t| (sh.state[t].load(SeqCst), sh.seen[t].load(SeqCst), sh.note_now[t].load(SeqCst)))
+                .map(|t| {
+                    let st = sh.state[t].load(SeqCst);
+                    let seen = sh.seen[t].load(SeqCst);
+                    let now = notes[t].as_ref().map(|n| n.count.load(SeqCst)).unwrap_or(0);
+                    (st, seen, now)
+                })
                 .collect()
         };
         let s1 = snap(&shared);
@@ -685,6 +696,19 @@ pub fn run_many(seed: u64, runs: u64, budget_ms: u64, small: bool, shard: &mut S
         if budget_ms != 0 && t0.elapsed().as_millis() as u64 > budget_ms {
             break;
         }
+        if i % 8 == 7 {
+            let (sig, nontrivial) = direct_recv_scenario(&mut rng, shard);
+            shard.evaluations += 1;
+            shard.distinct.insert(sig);
+            if nontrivial {
+                shard.nontrivial.insert(sig);
+            }
+            i += 1;
+            if shard.violations.len() >= 12 {
+                break;
+            }
+            continue;
+        }
         let cfg = gen_cfg(&mut rng, small);
         let (sig, nontrivial, stuck) = run_once(&cfg, shard);
         if stuck {
@@ -700,4 +724,111 @@ pub fn run_many(seed: u64, runs: u64, budget_ms: u64, small: bool, shard: &mut S
         }
         i += 1;
     }
+}
+
+/// C15: the direct blocking recv() of a futures receiver behaves like the plain one (returns
+/// the value once it arrives) and never panics, also when it really has to wait.
+pub fn direct_recv_scenario(rng: &mut Rng, shard: &mut Shard) -> (u64, bool) {
+    payload::reset_ledger();
+    api::reset_ids();
+    hist::clock_reset();
+    let fl = if rng.chance(1, 2) { Flavour::Broadcast } else { Flavour::Mpmc };
+    let cap = *rng.pick(&[0u64, 1, 2, 4]);
+    let uni = rng.chance(1, 2);
+    let k = 1 + rng.below(3) as u32;
+    let spins = if fl == Flavour::Broadcast && rng.chance(1, 2) { Some((0, 0)) } else { None };
+    let seed = rng.next();
+    hooks::thread_begin(0, crate::conc::ROLE_MAIN, seed, Policy::None, &[]);
+    let (tx, mut rx) = api::create(fl, true, cap, WaitKind::Busy, spins);
+    if uni {
+        rx.into_single();
+    }
+    let kind_name = rx.kind_name();
+    let done = Arc::new(AtomicU32::new(0));
+    let d2 = done.clone();
+    let j = std::thread::Builder::new()
+        .name("fut-direct-recv".into())
+        .spawn(move || {
+            hooks::thread_begin(1, crate::conc::ROLE_CONSUMER, seed, Policy::Yield, &[]);
+            let mut outs = Vec::new();
+            for _ in 0..k {
+                let o = rx.recv_kind(RecvKind::Recv);
+                outs.push(o);
+                if !matches!(o, RecvOut::Val(_)) {
+                    break;
+                }
+            }
+            d2.store(1, SeqCst);
+            rx.drop_rx();
+            let log = hist::take();
+            hooks::thread_end();
+            (outs, log)
+        })
+        .expect("spawn");
+    let mut waited = 0u32;
+    for i in 0..k {
+        // let the consumer really enter its wait before the value exists
+        let before = hooks::B_WAITS.load(SeqCst);
+        let t0 = Instant::now();
+        while hooks::B_WAITS.load(SeqCst) == before && done.load(SeqCst) == 0 {
+            std::thread::yield_now();
+            if !cfg!(miri) && t0.elapsed() > Duration::from_millis(300) {
+                break;
+            }
+        }
+        if hooks::B_WAITS.load(SeqCst) != before {
+            waited += 1;
+        }
+        if done.load(SeqCst) != 0 {
+            break;
+        }
+        tx.try_send(0x700 + i as u64);
+    }
+    // watchdog join
+    let t0 = Instant::now();
+    while done.load(SeqCst) == 0 {
+        std::thread::yield_now();
+        if !cfg!(miri) && t0.elapsed() > Duration::from_secs(10) {
+            // rescue: drop the sender so the consumer returns
+            break;
+        }
+    }
+    let stuck = done.load(SeqCst) == 0;
+    tx.drop_tx(false);
+    let (outs, log) = j.join().unwrap_or((Vec::new(), Vec::new()));
+    let h = hist::merge(vec![log, hist::take()]);
+    hooks::thread_end();
+    if stuck {
+        violation(
+            "C15,C08",
+            "direct-recv",
+            format!("direct-recv:never-returned:{}", kind_name),
+            format!("{}::recv() did not return although the value it waits for had been sent", kind_name),
+        );
+    }
+    for (i, o) in outs.iter().enumerate() {
+        match o {
+            RecvOut::Val(s) if s.id == 0x700 + i as u64 => {}
+            RecvOut::Panic => {} // recorded by the API wrapper
+            other => violation(
+                "C15",
+                "direct-recv",
+                format!("direct-recv:wrong-result:{}", kind_name),
+                format!("{}::recv() #{} returned {:?}, expected value {:#x}", kind_name, i, other, 0x700 + i),
+            ),
+        }
+    }
+    shard.stat("direct_recv_scenarios", 1);
+    shard.stat("direct_recv_calls_that_had_to_wait", waited as u64);
+    let vs = payload::take_violations();
+    if !vs.is_empty() {
+        let replay = J::obj()
+            .set("engine", J::s("fut"))
+            .set("scenario", J::s(format!("direct-recv {} cap={} uni={} k={} spins={:?}", fl.name(), cap, uni, k, spins)))
+            .set("history", hist::dump(&h, 100));
+        shard.add_violations(vs, &replay);
+    }
+    let mut sig = Hasher64::new();
+    sig.add_str(&format!("direct-recv{:?}{}{}{}{:?}{}", fl, cap, uni, k, spins, waited));
+    (sig.get(), waited > 0)
 }
